@@ -307,10 +307,6 @@ def checkC11 (env : MEnv) (h : Heap) (target root : Val) (orig : List Step) (vs 
 
 /-! ### well-formedness of the extracted facts -/
 
-/-- exceptions the `assign` handlers can raise -/
-def assignHandlerExcs : List String :=
-  ["TypeError", "IndexError", "AttributeError", "RuntimeError", "ValueError", "NotImplementedError"]
-
 /-- in registry table `reg` the two virtual (duck) types carry the handler of `object` -/
 def virtualLikeObject (reg : List (String × String)) : Bool :=
   match reg.find? (·.1 == "object") with
@@ -321,17 +317,19 @@ def virtualLikeObject (reg : List (String × String)) : Bool :=
       | none => true)
   | none => false
 
+/-- branch `op` of `_assign_op` performs `kind` (whatever its `except` clause names: the
+    property only needs *an* error; the model takes the caught classes from the table) -/
+def assignKind (env : MEnv) (op kind : String) : Bool :=
+  (branchOf env.assignBr op).map (·.1) == some kind
+
 def WF (env : MEnv) : Bool :=
   virtualLikeObject env.assignReg &&
   C01.WF env.t &&
   C01.dispatchOf env.t "x" == some ("star", []) &&
   C01.dispatchOf env.t "X" == some ("starstar", []) &&
-  branchOf env.assignBr "[" == some ("setitem", [], "") &&
-  branchOf env.assignBr "." == some ("setattr", [], "") &&
-  (match branchOf env.assignBr "P" with
-   | some ("handler", caught, "PathAssignError") =>
-     assignHandlerExcs.all (fun n => C01.caughtBy env.t caught ⟨n⟩)
-   | _ => false) &&
+  assignKind env "[" "setitem" &&
+  assignKind env "." "setattr" &&
+  assignKind env "P" "handler" &&
   env.t.excTable.isSub "PathAssignError" "GlomError"
 
 
